@@ -168,6 +168,17 @@ pub fn load_text(text: &str) -> Loaded {
 pub fn load_value(v: Y) -> Loaded {
     watchdog(move || Rule::from_value(v).map_err(|e| format!("{}", e)))
 }
+/// Rule::load on ONE path per process, overwritten by every case (a file that changes between loads)
+pub fn load_file(text: &str) -> Loaded {
+    let p = std::env::current_dir().unwrap_or_else(|_| std::path::PathBuf::from(".")).join(format!("tvh_rule_{}.yml", std::process::id()));
+    if std::fs::write(&p, text).is_err() {
+        return Loaded::Err("cannot write rule file".into());
+    }
+    let p2 = p.clone();
+    let r = watchdog(move || Rule::load(&p2).map_err(|e| format!("{}", e)));
+    let _ = std::fs::remove_file(&p);
+    r
+}
 /// the same on a thread of their own (a reload happens "elsewhere")
 pub fn load_text_fresh(text: &str) -> Loaded {
     let t = text.to_string();
@@ -625,6 +636,16 @@ pub fn run_life(case_in: &J, out: &mut Out, ic_build: bool) {
     if plan["via_value"].as_bool().unwrap_or(false) && again_base.is_none() {
         let l2 = load_value(rendered.value.clone());
         out.ev(json!({"ev":"load2","via":"value","out":l2.tag()}));
+        // third path: Rule::load of a file holding this text (the same path for every case of the process); what it
+        // loads must be THIS text's rule - compared through the serialised form
+        let l3 = load_file(&rendered.text);
+        let tag = match (&l3, &loaded) {
+            (Loaded::Ok(a), Loaded::Ok(b)) => {
+                if serde_yaml::to_string(a).ok() == serde_yaml::to_string(b).ok() { "ok" } else { "differs" }
+            }
+            _ => l3.tag(),
+        };
+        out.ev(json!({"ev":"load2","via":"file","out":tag}));
     }
     let rule = match loaded {
         Loaded::Ok(r) => r,
